@@ -25,6 +25,7 @@ func init() {
 			{ID: "C20.R1", Text: "waiter: signal channel buffered; Wait = dispatch error | select{ctx.Done→op.Cancel(), signal} then ctx.Err()", Run: c20r1},
 			{ID: "C20.R2", Text: "callbacks: Resolve exactly once and before any send on every path; sends fit the channel capacity; every awaited channel is sent to on every path", Run: c20r2},
 			{ID: "C20.R3", Text: "the callback's error reaches the wrapper's error result; results are dereferenced only under err==nil", Run: c20r3},
+			{ID: "C20.R24", Text: "what Ping counts as an answer: the endpoint pickers of the Ping callback hand out an entry's address only after seeing its Error nil and its State PingStateOK, and the empty string otherwise (same rule as C19.R12)", Run: endpointsAreHealthy},
 			{ID: "C20.R5", Text: "Ping reports success only when both the data and the management service answered: the error handed to the waiter is non-nil ⇔ the operation failed ∨ either endpoint is missing", Run: pingOutcome},
 			{ID: "C20.R6", Text: "checkpoint writes are confirmed or reported: every storage primitive's error in the Metadata.Save backends reaches the result (same rule as C05.R5)", Run: c05r5},
 			{ID: "C20.R7", Text: "a deadline is a timeout, not a schedule: no configuration option that the module uses as a period (ticker, sleep, timer delay) bounds an operation, and the ping is bounded by HealthCheck.Timeout", Run: c20r7},
@@ -649,21 +650,48 @@ func pingOutcome(c *Ctx, id string) {
 		}
 	}
 	c.need(errP != nil, id, "error parameter of the Ping callback")
-	// which endpoint constant is which: read the service-type arguments of getServiceEndpoint from the two stores
+	// the endpoint pickers the callback asks, and the service each call asks about
+	pickers := map[string]*endpointPicker{}
+	noinl := map[string]bool{"couchbase.printLatenciesOfServiceEndpoints": true}
+	for _, p := range endpointPickers(w, cb) {
+		if p.why != "" {
+			c.Undecided(id, "picker@"+fname(p.fn), p.fn.Pos(), "%s", p.why)
+			continue
+		}
+		pickers[fname(p.fn)] = p
+		noinl[fname(p.fn)] = true
+	}
+	memd, okM := gocbConst(w, "MemdService")
+	mgmt, okG := gocbConst(w, "MgmtService")
+	c.need(okM && okG, id, "gocbcore.MemdService / MgmtService")
 	h := &Harness{Fn: cb, Bools: []string{errP.Name() + "==nil", "memdFound", "mgmtFound"}, Quiet: []string{"couchbase.printLatenciesOfServiceEndpoints", "errors.New"},
-		NoInline: map[string]bool{"couchbase.getServiceEndpoint": true, "couchbase.printLatenciesOfServiceEndpoints": true},
+		NoInline: noinl,
 		Args:     map[string]func(st *State) AV{},
 		Oracle: func(st *State, name string, args []AV, res *types.Tuple) ([]AV, bool) {
-			switch name {
-			case "couchbase.getServiceEndpoint":
-				which := "memdFound"
-				if len(args) == 2 && avString(args[1]) == "2" { // gocbcore.MgmtService
+			if p := pickers[name]; p != nil {
+				svc := p.svc
+				if p.svcParam >= 0 {
+					a, isInt := args[p.svcParam].(avInt)
+					if !isInt || a.atom != "" {
+						return nil, false
+					}
+					svc = a.conc
+				}
+				which := ""
+				switch svc {
+				case memd:
+					which = "memdFound"
+				case mgmt:
 					which = "mgmtFound"
+				default:
+					return []AV{avStr{isC: true, conc: ""}}, true // a service the property does not speak about: nothing found
 				}
 				if st.B(which) {
 					return []AV{avStr{isC: true, conc: "endpoint-" + which}}, true
 				}
 				return []AV{avStr{isC: true, conc: ""}}, true
+			}
+			switch name {
 			case "errors.New":
 				return []AV{avIface{sym: "unhealthy"}}, true
 			}
